@@ -198,6 +198,16 @@ impl Mon<T, T> {
                 // while a resize is in flight relocates at most R elements per key it adds (C02),
                 // and its main table cannot need re-hashing (C04), so no more than that many can
                 // be in flight when the hasher panics (an entry chain adds at most two keys)
+                // no resize in flight and none started by this call: nothing is being relocated,
+                // so a panicking Hash cannot cost a stored element (an entry chain may have
+                // removed its own key before a later step hashed again)
+                if st0.old.is_none() && st0.main.capacity != st0.main.len && op_has_key(op.code) {
+                    let own_chain = matches!(op.code, Code::Entry | Code::RawEntryMut);
+                    let foreign: Vec<u64> = lost.iter().copied().filter(|k| !(own_chain && *k == op.k)).collect();
+                    if !foreign.is_empty() {
+                        viol!("C07", "elements {:?} lost {ctx} although no resize was in progress (nothing was being relocated)", foreign);
+                    }
+                }
                 if split && op_has_key(op.code) {
                     let bound = 2 * st0.r + removing as usize;
                     if lost.len() > bound {
